@@ -24,6 +24,9 @@ case format
   resp_packet : enc_val
   conn : "single" (default) | "stapled" (the library's AsyncStapledStreamTransport over two in-memory half transports whose
          aclose() takes `wclose` / `rclose` loop turns; "connection closed" = both halves closed)      (c15_run.Connection)
+  layer "tie"  : a different kind of case (real AsyncTCPNetworkServer / AsyncStreamServer on a loopback socket stepped turn by
+         turn on a virtual clock; request bytes readable around / in the very loop iteration in which the yielded timeout
+         expires): format, runner, oracle, generation in vlib/c15_tie.py  [oracle only]
   layer "loop" : a different kind of case (real AsyncTCPNetworkServer on a loopback socket, the client closed by a helper
          task / on_connection's task / another client's handler / the generator / the peer while the connection task is parked
          in the transport receive or the generator is busy): format, runner, oracle, generation in vlib/c15_loop.py  [oracle only]
@@ -64,7 +67,9 @@ TRUSTED_BASE = [
     "servers/misc.py, lowlevel/_asyncgen.py by this correspondence check (sampled, not proved)",
     "harness: virtual-time event loop, in-memory transport/listener (vlib/c15_env.py), scripted handlers, canonicaliser, "
     "endriver line parser; for the loopback cases (vlib/c15_loop.py): the kernel's loopback TCP, asyncio's selector loop and "
-    "socket transport, a listener proxy (public backend= extension point) observing the connection tasks",
+    "socket transport, a listener proxy (public backend= extension point) observing the connection tasks; for the deadline-tie "
+    "cases (vlib/c15_tie.py): the same plus the turn-stepped virtual-clock loop of vlib/c10_vloop.py, FIONREAD / POLLRDHUP on the "
+    "server-side descriptor",
     "CPython 3.12 async generators / asyncio task scheduling / EasyNetwork cancel scopes: exercised, represented in the model "
     "only by their effect on the receive deadline",
     "payload codecs (str, json, struct) are parameters: a malformed request is a frame the codec rejects",
@@ -82,7 +87,11 @@ RULE = (
     "read after a local close x connection kind (single in-memory transport | AsyncStapledStreamTransport over two half "
     "transports with 0-3 checkpoints in aclose()) | loopback case = closer (helper task, on_connection task, other client's "
     "handler, generator, peer) x moment (parked in the transport receive at request #k | busy) x aclose / aclose_forcefully "
-    "x spawn x requests per generator x yielded timeout x on_connection kind x receive path; non-trivial = a generator restart or an "
+    "x spawn x requests per generator x yielded timeout x on_connection kind x receive path x a helper task parked inside "
+    "client.send_packet() with the send lock | deadline-tie case (real loopback server stepped turn by turn on a virtual clock) "
+    "= per request 1-3 pieces, each readable k iterations before / in / after the iteration in which the yielded timeout's "
+    "timer fires, malformed frames, the peer's FIN as a piece x yielded timeouts x requests per generator x max_recv x server "
+    "kind x receive path; non-trivial = a generator restart or an "
     "on_connection generator or a timeout or a malformed frame or a handler close occurred, keyed by layer/path/features; "
     "distinct by full case digest"
 )
@@ -94,6 +103,9 @@ def _runner(case: dict):
     if case.get("layer") == "loop":
         from vlib import c15_loop
         return c15_loop.run_real
+    if case.get("layer") == "tie":
+        from vlib import c15_tie
+        return c15_tie.run_real
     if case.get("layer") == "tcp":
         from vlib import c15_tcp
         if case.get("conn", "single") != "single":
@@ -109,7 +121,7 @@ def real_for_diff(case: dict, real: list[str]) -> list[str]:
 
 def run_real(case: dict) -> list[str]:
     lines, aux = _runner(case)(case)
-    if case.get("layer") == "loop":
+    if case.get("layer") in ("loop", "tie"):
         return lines
     lines = lines + ["wire " + core.hexs(aux["written"])]
     _aux[core.case_digest(case)] = aux
@@ -121,8 +133,8 @@ def _model_layer(case: dict) -> str:
 
 
 def model_input(case: dict, real: list[str]):
-    if case.get("layer") == "loop":
-        return None     # real loopback sockets, closers in other tasks: oracle only
+    if case.get("layer") in ("loop", "tie"):
+        return None     # real loopback sockets (closers in other tasks / arrivals tied with a deadline): oracle only
     if _has_pre_close(case):
         return None     # closing before asking for a request is not a construct of the model: oracle only
     head = sers.model_head(case["spec"], case["path"], case.get("max_recv", 16384))
@@ -229,6 +241,9 @@ def oracle(case: dict, real: list[str]) -> str | None:
     if case.get("layer") == "loop":
         from vlib import c15_loop
         return c15_loop.oracle(case, real)
+    if case.get("layer") == "tie":
+        from vlib import c15_tie
+        return c15_tie.oracle(case, real)
     for ln in real:
         if ln.startswith(("harness-exc", "main-exc")) or " other:" in ln or ln.startswith("task exc") or ln.startswith("task cancelled"):
             return f"unexpected failure: {ln}"
@@ -379,6 +394,9 @@ def nontrivial(case: dict, real: list[str]) -> str | None:
     if case.get("layer") == "loop":
         from vlib import c15_loop
         return c15_loop.nontrivial(case, real)
+    if case.get("layer") == "tie":
+        from vlib import c15_tie
+        return c15_tie.nontrivial(case, real)
     feats = []
     starts = sum(1 for ln in real if ln.startswith("gen ") and " start " in ln and not ln.startswith("gen oc"))
     if starts >= 2:
@@ -417,6 +435,10 @@ def shrink(case: dict):
     if case.get("layer") == "loop":
         from vlib import c15_loop
         yield from c15_loop.shrink(case)
+        return
+    if case.get("layer") == "tie":
+        from vlib import c15_tie
+        yield from c15_tie.shrink(case)
         return
     fr = case["frames"]
     for i in range(len(fr)):
@@ -464,6 +486,9 @@ def shrink(case: dict):
 
 
 def known_key(case: dict, real: list[str], why: str) -> str:
+    if case.get("layer") == "tie":
+        return (f"layer=tie,server={case.get('server')},path={case['path']},"
+                f"why={'-'.join(why.split(': ', 1)[-1].split()[:3])}")
     if case.get("layer") == "loop":
         return (f"layer=loop,path={case['path']},closer={case.get('closer')},moment={case.get('moment')},"
                 f"why={'-'.join(why.split(': ', 1)[-1].split()[:4])}")
@@ -739,20 +764,28 @@ def corpus() -> list[dict]:
     # connection task is parked in the transport receive or the generator is busy (vlib/c15_loop.py)
     from vlib import c15_loop
     cases.extend(c15_loop.corpus())
+    # real loopback TCP driven turn by turn on a virtual clock: request bytes readable in the same loop iteration as the
+    # deadline of the yielded timeout, just before it, just after it, whole and in pieces (vlib/c15_tie.py)
+    from vlib import c15_tie
+    cases.extend(c15_tie.corpus())
     return cases
 
 
 def generate(rng, tier: str, boost: int):
     n = (5000 if tier == "quick" else 25000) * boost
     layers = ("low", "high", "high", "tcp")
-    from vlib import c15_loop
-    lrng = core.sub_rng(rng.getrandbits(32), "c15-loop")
+    from vlib import c15_loop, c15_tie
+    sub = rng.getrandbits(32)
+    lrng = core.sub_rng(sub, "c15-loop")
+    trng = core.sub_rng(sub, "c15-tie")
     for i in range(n):
         c = gen_case(rng, layers)
         if c is not None:
             yield c
         if i % 20 == 0:
             yield c15_loop.gen_case(lrng)       # 250 (quick) / 1250 loopback sessions, spread over the run
+        if i % 10 == 5:
+            yield c15_tie.gen_case(trng)        # 500 (quick) / 2500 deadline-tie sessions
 
 
 def extra_coverage(stats) -> dict:
